@@ -3,6 +3,8 @@ malformed action), the episode after the last reset must be bit-identical to the
 Reuses the C04/C17 model families (features with history, latency, delay, folds, markov / warm-up resets)."""
 import struct
 
+import numpy as np
+
 from . import tlaval, explore
 from . import env_check, props_env
 
@@ -29,6 +31,14 @@ def _snap(w, call, out, val):
     o["nlv"] = hx(v1) if o1 == "ok" else o1
     tr = env.broker.track_record
     o["track"] = [(str(tr[i].time), hx(tr[i].context_pre.nlv), hx(tr[i].context_post.nlv)) for i in range(len(tr))]
+    # observation features with history: what the state and the features have recorded so far in this episode
+    st = env.state
+    o["state_history"] = [str(k) for k in (st.history or {})]
+    o["feature_history"] = []
+    for f in (st.features or []):
+        if getattr(f, "save", False):
+            h = f.history or {}
+            o["feature_history"].append((f.name, [(str(k), np.asarray(v, dtype=float).tobytes().hex()) for k, v in h.items()]))
     o["exec"] = None if w.sink.exec is None else (sorted(w.sink.exec["alloc"].items()), str(w.sink.exec["stamp"]),
                                                   sorted((k, str(v)) for k, v in w.sink.exec["books"].items()))
     return o
@@ -47,7 +57,9 @@ def replay_chunk(ctx, texts):
             continue
         cfg = s["cfg"]
         last = resets[-1]
-        w = replay_env.World(cfg, ctx["trade"], seed=3)
+        from .nolook_check import _obs_feature
+        Obs = _obs_feature()
+        w = replay_env.World(cfg, ctx["trade"], seed=3, extra_features=lambda ww: [Obs(ww.A, ww.B)])
         got = []
         for rec in hist:
             if rec["call"] == "reset":
@@ -56,7 +68,7 @@ def replay_chunk(ctx, texts):
                 o, v = w.step(rec["act"])
             got.append(_snap(w, rec["call"], o, v))
             out["ops"] += 1
-        fresh = replay_env.World(cfg, ctx["trade"], seed=3)
+        fresh = replay_env.World(cfg, ctx["trade"], seed=3, extra_features=lambda ww: [Obs(ww.A, ww.B)])
         bad = None
         for i, rec in enumerate(hist[last:]):
             if rec["call"] == "reset":
